@@ -70,7 +70,7 @@ func ToUpper[T ~string](str T) T {
 	result := make([]rune, 0, len(str))
 
 	for _, val := range str {
-		result = append(result, unicode.ToLower(rune(val)))
+		result = append(result, unicode.ToUpper(rune(val)))
 	}
 
 	return T(result)
